@@ -1632,6 +1632,18 @@ func replay(line string) {
 		}
 	case "disp":
 		runDisp(w[1])
+	case "sind":
+		runSind(w[1], kv(w, "src"), kv(w, "dest"))
+	case "pdur":
+		var cur []int64
+		for _, c := range strings.Split(kv(w, "cur"), ",") {
+			n, err := strconv.ParseInt(c, 10, 64)
+			if err != nil {
+				return
+			}
+			cur = append(cur, n)
+		}
+		runPdur(strings.Split(kv(w, "args"), ","), cur)
 	case "mgr":
 		runMgr(w[1])
 	case "val":
